@@ -144,9 +144,16 @@ func main() {
 		"processes":               procs,
 		"exhaustive_spaces":       spaces,
 	}
-	if allExh {
+	// "exhaustive" is claimed for the property only when the check declares that the enumerated
+	// space is the property's complete domain (C19); bounded sub-spaces that were enumerated
+	// completely are listed under exhaustive_spaces, everything beyond them is sampled.
+	if complete, _ := notes["complete_domain"].(bool); allExh && complete {
 		cov["exhaustive"] = true
+	} else {
+		cov["exhaustive"] = false
 	}
+	delete(notes, "complete_domain")
+	cov["exhaustive_spaces_note"] = "bounded sub-spaces enumerated completely by this run; inputs outside them are generated randomly (sampled)"
 	for k, v := range notes {
 		cov[k] = v
 	}
